@@ -329,6 +329,24 @@ def r6_candidates(repo):
 
 def r7_oracle_wiring(repo):
     obs = []
+    # the report flag belongs to the mutation: it is written by the transformation classes on themselves and by nobody
+    # else (a driver that clears it after the program has been mutated in place reports "nothing injected" for a
+    # program that carries the fault)
+    base = repo.cls("src.transformations.base.Transformation")
+    foreign = []
+    n_own = 0
+    for qual, fn_ in sorted(repo.functions.items()):
+        for n_ in iter_own_nodes(fn_.node):
+            if isinstance(n_, (ast.Assign, ast.AugAssign)):
+                for t_ in (n_.targets if isinstance(n_, ast.Assign) else [n_.target]):
+                    if isinstance(t_, ast.Attribute) and t_.attr in ("is_transformed", "error_injected"):
+                        own = src(t_.value) == "self" and fn_.cls is not None and base in fn_.cls.mro()
+                        n_own += 1 if own else 0
+                        if not own:
+                            foreign.append("%s:%d `%s`" % (fn_.module.relpath, n_.lineno, src(n_)[:50]))
+    obs.append(Ob("C04-R7", "report-flags-written-only-by-the-mutation-itself", "src/", not foreign and n_own >= 2,
+                  "stores to is_transformed / error_injected outside the transformation classes: %s (own stores: %d)"
+                  % (foreign, n_own)))
     f = repo.method("src.modules.processor.ProgramProcessor", "inject_fault", inherited=False)
     rets = [n for n in iter_own_nodes(f.node) if isinstance(n, ast.Return)]
     none_r = [r for r in rets if const_value(r.value, 1) is None]
